@@ -1,6 +1,7 @@
 pub mod allocmc;
 pub mod c01;
 pub mod c02;
+pub mod c03;
 pub mod c04;
 pub mod c07;
 pub mod c08;
@@ -26,6 +27,7 @@ pub fn dispatch(p: &str, ctx: &Ctx) -> Option<Report> {
     Some(match p {
         "C01" => c01::run(ctx),
         "C02" => c02::run(ctx),
+        "C03" => c03::run(ctx),
         "C04" => c04::run(ctx),
         "C07" => c07::run(ctx),
         "C08" => c08::run(ctx),
